@@ -58,6 +58,10 @@ mutual
     | .forUp i lim body =>
       -- `var i = 0` runs first; the test reads `i` and `lim`
       if D.contains lim && (scopedStmts (i :: D) body).isSome then some (i :: D) else none
+    | .forStep i lim init incr body =>
+      -- `var i = init` runs first; the test reads `i` and `lim`, the update `i` and `incr`
+      if D.contains lim && allIn D (readsE init) && allIn (i :: D) (readsE incr) && (scopedStmts (i :: D) body).isSome
+      then some (i :: D) else none
     | .ifPos lim body els =>
       if D.contains lim && (scopedStmts D body).isSome && (scopedStmts D els).isSome then some D else none
   def scopedStmts (D : List Bytes) : JsStmts → Option (List Bytes)
@@ -271,6 +275,22 @@ theorem covers_pushForEach {D : List Bytes} {sc : Scope} (h : Covers D sc) (v : 
       · simp only [h1, h2, h3, Bool.false_eq_true, if_false] at hl
         exact Sub.cons _ _ g (Sub.cons _ _ g (Sub.cons _ _ g (h k g hl)))
 
+theorem covers_pushForRange {D : List Bytes} {sc : Scope} (h : Covers D sc) (v : Bytes) :
+    Covers ((sc.pushForRange v).1.1 :: (sc.pushForRange v).1.2 :: D) (sc.pushForRange v).2 := by
+  intro k g hl
+  simp only [Scope.pushForRange, Scope.lookup, Scope.lookupIn, C04c.frameGet_frameSet, frameGet?] at hl
+  by_cases h1 : (Scope.kIndex ++ v == k) = true
+  · simp only [h1, if_true, Option.some.injEq] at hl; subst hl
+    simp [Scope.pushForRange]
+  · by_cases h2 : (Scope.kLimit ++ v == k) = true
+    · simp only [h1, h2, Bool.false_eq_true, if_false, if_true, Option.some.injEq] at hl; subst hl
+      simp [Scope.pushForRange]
+    · by_cases h3 : (v == k) = true
+      · simp only [h1, h2, h3, Bool.false_eq_true, if_false, if_true, Option.some.injEq] at hl; subst hl
+        simp [Scope.pushForRange]
+      · simp only [h1, h2, h3, Bool.false_eq_true, if_false] at hl
+        exact Sub.cons _ _ g (Sub.cons _ _ g (h k g hl))
+
 section
 variable (ae : Autoescape) (buf : Bytes)
 
@@ -309,8 +329,20 @@ mutual
         exact ⟨D, by simp [scopedStmts_one, scopedStmt, this], hc.stack h1, Sub.refl D⟩
       · cases h
     | .forc p v list body none, sc, r, D, h, hs, hc, hb => by
-      have hscope := toCmd_scope ae buf _ sc r h hs
       unfold toCmd at h
+      rcases loopJoin_some h with h | h
+      case inr =>
+        obtain ⟨hv, _, args, l, c, jl, ji, rbv, pc, _, _, _, _, hjl, hji, hrb, rfl⟩ := rangeJoin_some h
+        obtain ⟨p1, p2, _⟩ := scOk_pushForRange hs v
+        obtain ⟨_, b2, _⟩ := toBody_scope ae buf body _ rbv hrb p1
+        have hst : rbv.2.pop.stack = sc.stack := by simp only [Scope.pop]; rw [b2, p2]
+        have hc2 := covers_pushForRange hc v
+        obtain ⟨D4, h4, _, _⟩ := scoped_body body _ rbv _ hrb p1 hc2 (Sub.cons _ _ _ (Sub.cons _ _ _ hb))
+        have hsub : Sub D ((sc.pushForRange v).1.1 :: (sc.pushForRange v).1.2 :: D) := (Sub.cons _ D).trans (Sub.cons _ _)
+        refine ⟨_, ?_, (hc.mono hsub).stack hst, hsub⟩
+        have r1 := toAst_reads D sc hc l jl hjl
+        have r2 := allIn_mono (toAst_reads D sc hc _ ji hji) (Sub.cons (sc.pushForRange v).1.2 D)
+        simp [rangeStmts, JsStmts.one, scopedStmts, scopedStmt, r1, r2, h4, readsE, allIn_nil]
       obtain ⟨hv, _, j, rbv, hj, hrb, he⟩ := forcJoin_some h
       simp only at he
       subst he
@@ -328,6 +360,7 @@ mutual
       simp [foreachStmts, JsStmts.one, scopedStmts, scopedStmt, toAst_reads D sc hc list j hj, h4]
     | .forc p v list body (some ie), sc, r, D, h, hs, hc, hb => by
       unfold toCmd at h
+      have h := (loopJoin_some h).resolve_right (by intro h'; have := (rangeJoin_some h').2.1; simp at this)
       obtain ⟨hv, _, j, rbv, hj, hrb, he⟩ := forcJoin_some h
       simp only at he
       obtain ⟨re, hre, rfl⟩ := he
